@@ -58,6 +58,10 @@ end GoModel
 namespace GoModel
 variable (ext : Ext) (mode : Mode)
 
+theorem resolve_exact' (nd : Node) (k : Str) (o : Nat) (h : lookup k nd.opts = some o) :
+    resolve nd k = [k] := by
+  simp [resolve, h]
+
 /-! ## case lemmas for `procPair` -/
 
 theorem procPair_unknown_ro (s : PState) (p : Pair) (hr : resolve (s.P.node s.cur) p.opt = [])
@@ -101,6 +105,26 @@ end GoModel
 
 namespace GoModel
 variable (ext : Ext) (mode : Mode)
+
+/-- a pair never moves the current node and never changes a node record -/
+theorem procPair_cur_nodes (s : PState) (p : Pair) :
+    (procPair ext s p).cur = s.cur ∧ ∀ n, (procPair ext s p).P.node n = s.P.node n := by
+  cases hr : resolve (s.P.node s.cur) p.opt with
+  | nil =>
+    cases hro : (s.P.node s.cur).requireOrder with
+    | true => rw [procPair_unknown_ro ext s p hr hro]; exact ⟨rfl, fun _ => rfl⟩
+    | false => rw [procPair_unknown ext s p hr hro]; split <;> exact ⟨rfl, fun _ => rfl⟩
+  | cons k1 rest =>
+    cases rest with
+    | nil =>
+      cases hl : lookup k1 (s.P.node s.cur).opts with
+      | none => rw [procPair_known_nolookup ext s p k1 hr hl]; exact ⟨rfl, fun _ => rfl⟩
+      | some oid =>
+        rw [procPair_known ext s p k1 oid hr hl]
+        split
+        · exact ⟨rfl, fun _ => rfl⟩
+        · split <;> exact ⟨rfl, fun _ => rfl⟩
+    | cons k2 ks => rw [procPair_amb ext s p k1 k2 ks hr]; exact ⟨rfl, fun _ => rfl⟩
 
 /-! ## a token that splits into one known pair -/
 
